@@ -4,6 +4,21 @@ open Sos Sos.Auth
 
 def parseList (s : String) : List Nat := (splitList s).filterMap String.toNat?
 
+def parseEv (s : String) : Option DevEv :=
+  match s.toList with
+  | 't' :: r => (String.ofList r).toNat?.map .trust
+  | 'r' :: r => (String.ofList r).toNat?.map .revoke
+  | _ => none
+
+def parseEvs (s : String) : Option (List DevEv) :=
+  if s = "-" || s = "" then some [] else (s.splitOn ".").mapM parseEv
+
+def parseDevOp (s : String) : Option DevOp :=
+  match s.splitOn ":" with
+  | ["p", e] => (parseEvs e).map .patch
+  | ["f", e] => (parseEvs e).map .force
+  | _ => none
+
 /-- `auth req handler=<h> hdr=<acct|-> cred=<none|malformed|token:key:msg> signed=<msg>
      cfg=<none|allow:a,b|deny:a,b> trusted=<k1,k2>` (account 1 exists with those keys) -/
 def step (args : List String) : String :=
@@ -30,6 +45,13 @@ def step (args : List String) : String :=
       | .badRequest => "bad-request"
       | .forbidden => "forbidden"
     | _, _, _, _ => "bad-op"
+  | "devices" :: rest =>
+    -- `auth devices create=t1 ops=p:t2.t3;f:t1.t2.r2` -> the trusted set the server checks against
+    match (argOf rest "create").bind parseEvs, (argOf rest "ops").bind (fun o => if o = "-" then some [] else (o.splitOn ";").mapM parseDevOp) with
+    | some l0, some ops =>
+      let st := (DevStore.create l0).run ops
+      "trusted=" ++ ",".intercalate (st.cache.mergeSort (· ≤ ·) |>.map toString) ++ " log=" ++ toString st.log.length
+    | _, _ => "bad-op"
   | _ => "bad-op"
 
 end Sos.Drv.Auth
